@@ -364,9 +364,9 @@ static std::string real(const std::string &scenario, int callers, int timeoutMs)
     if (scenario == "stop") expect = "Eengine|Eshut";
     if (scenario == "cancel") expect = "Ecancel";
     if (expect.find(r.result) == std::string::npos) verdict += " wrong-result:" + r.kind + "->" + r.result;
-    long bound = timeoutMs + 400;
-    if (scenario == "stop") bound = 60 + 600;
-    if (scenario == "cancel") bound = 150 + 100 + 400; // the cancellation is polled every 100 ms
+    long bound = timeoutMs + 1000;
+    if (scenario == "stop") bound = 60 + 1500;
+    if (scenario == "cancel") bound = 150 + 100 + 1000; // the cancellation is polled every 100 ms
     if (r.ms > bound) verdict += " late-return:" + r.kind + ":" + std::to_string(r.ms) + "ms";
   }
   if (scenario != "stop" && openSessions != oks) verdict += " open-sessions=" + std::to_string(openSessions) + "-handed=" + std::to_string(oks);
